@@ -25,9 +25,9 @@ type param struct {
 	role    role
 	rv, cv  int
 	fl      flavor
-	nz      bool                // draw non-zero values (divisor)
-	colOnly bool                // a Vector that must be n×1
-	fixed   func(p int) string  // concrete kind fixed by the operation (method receivers such as *BandDense)
+	nz      bool               // draw non-zero values (divisor)
+	colOnly bool               // a Vector that must be n×1
+	fixed   func(p int) string // concrete kind fixed by the operation (method receivers such as *BandDense)
 }
 
 type ctx struct {
@@ -121,14 +121,14 @@ func addOp(o *opDef) {
 
 var alphas = []float64{2, 0, 1, -1, 0.5, -1.5, 0.375}
 
-func mp(rv, cv int) param           { return param{role: pMatrix, rv: rv, cv: cv} }
-func vp(n int) param                { return param{role: pVector, rv: n, cv: -1} }
-func vpc(n int) param               { return param{role: pVector, rv: n, cv: -1, colOnly: true} }
-func sp(n int) param                { return param{role: pSym, rv: n, cv: n} }
-func tp(n int) param                { return param{role: pTri, rv: n, cv: n} }
-func (p param) well() param         { p.fl = fWell; return p }
-func (p param) spd() param          { p.fl = fSPD; return p }
-func (p param) nonzero() param      { p.nz = true; return p }
+func mp(rv, cv int) param                    { return param{role: pMatrix, rv: rv, cv: cv} }
+func vp(n int) param                         { return param{role: pVector, rv: n, cv: -1} }
+func vpc(n int) param                        { return param{role: pVector, rv: n, cv: -1, colOnly: true} }
+func sp(n int) param                         { return param{role: pSym, rv: n, cv: n} }
+func tp(n int) param                         { return param{role: pTri, rv: n, cv: n} }
+func (p param) well() param                  { p.fl = fWell; return p }
+func (p param) spd() param                   { p.fl = fSPD; return p }
+func (p param) nonzero() param               { p.nz = true; return p }
 func fixedKind(name string) func(int) string { return func(int) string { return name } }
 
 func resVars(r, c int) func(x *ctx) (int, int) {
@@ -697,11 +697,17 @@ func init() {
 		}
 	}
 	mulVecTo("BandDense", func(p int) string { return [...]string{"band", "band.strided"}[p%2] }, 2, false,
-		func(a mat.Matrix, dst *mat.VecDense, trans bool, xv mat.Vector) { a.(*mat.BandDense).MulVecTo(dst, trans, xv) })
+		func(a mat.Matrix, dst *mat.VecDense, trans bool, xv mat.Vector) {
+			a.(*mat.BandDense).MulVecTo(dst, trans, xv)
+		})
 	mulVecTo("SymBandDense", fixedKind("symband"), 1, true,
-		func(a mat.Matrix, dst *mat.VecDense, trans bool, xv mat.Vector) { a.(*mat.SymBandDense).MulVecTo(dst, trans, xv) })
+		func(a mat.Matrix, dst *mat.VecDense, trans bool, xv mat.Vector) {
+			a.(*mat.SymBandDense).MulVecTo(dst, trans, xv)
+		})
 	mulVecTo("Tridiag", fixedKind("tridiag"), 1, true,
-		func(a mat.Matrix, dst *mat.VecDense, trans bool, xv mat.Vector) { a.(*mat.Tridiag).MulVecTo(dst, trans, xv) })
+		func(a mat.Matrix, dst *mat.VecDense, trans bool, xv mat.Vector) {
+			a.(*mat.Tridiag).MulVecTo(dst, trans, xv)
+		})
 
 	solveTo := func(name string, fixed func(int) string, nfixed int, call func(a mat.Matrix, dst *mat.Dense, trans bool, b mat.Matrix) error) {
 		for _, trans := range []bool{false, true} {
